@@ -254,11 +254,19 @@ func (c *Ctx) writeCase(args []string) {
 	for _, op := range []string{fmt.Sprintf("wc %d%s", bs, toks), fmt.Sprintf("!rt %d%s", c.wbuf(), toks)} {
 		ans := evalWrite(op)
 		c.Hit(strings.Fields(op)[0])
-		if strings.HasPrefix(ans, "err:") || ans == "panic" {
-			c.Hit("rt-" + strings.SplitN(ans, ":", 3)[0])
-		}
 		c.Emit(op, ans, nt)
+		if strings.HasPrefix(op, "!rt") && ans != showArgv(args) {
+			// the harness judges the oracle itself too, so that a failing input is reported with a replay
+			c.Fail("writecmd:roundtrip:"+shortKey(op), op, fmt.Sprintf("the written command decodes to %.200q, the argv was %.200q", ans, showArgv(args)))
+		}
 	}
+}
+
+func shortKey(op string) string {
+	if len(op) > 48 {
+		op = op[:48]
+	}
+	return hx(op)
 }
 
 func runWriteCmd(c *Ctx) {
@@ -364,7 +372,11 @@ func runWriteCmd(c *Ctx) {
 				fmt.Sprintf("!rt2 %d%s /%s", c.wbuf(), argToks(args), argToks(b)),
 			} {
 				c.Hit(strings.Fields(op)[0])
-				c.Emit(op, evalWrite(op), true)
+				ans := evalWrite(op)
+				c.Emit(op, ans, true)
+				if want := showArgv(args) + " / " + showArgv(b); strings.HasPrefix(op, "!rt2") && ans != want {
+					c.Fail("writecmd:pipeline:"+shortKey(op), op, fmt.Sprintf("two written commands decode to %.200q, the argvs were %.200q", ans, want))
+				}
 			}
 		}
 	}
